@@ -249,8 +249,70 @@ def sub_elast_data(ctx):
     ctx.run_given(body, fill_cases(), max_examples=ctx.n(9 * 12, 9 * 300), shrink=True)
 
 
+def sub_exact(ctx):
+    """both tiers (cheap): the subspace equality decided in exact arithmetic (sympy, sqrt(3) kept symbolic): the null space of
+    the packaged relations and the invariant subspace of the Laue-group generators contain each other."""
+    import sympy as sp
+    from ..reftensor import PAIR_OF_VOIGT, VOIGT_OF_PAIR
+    h = sp.Rational(1, 2)
+    r3 = sp.sqrt(3) / 2
+
+    def rz(c, s_):
+        return sp.Matrix([[c, -s_, 0], [s_, c, 0], [0, 0, 1]])
+    C2x = sp.diag(1, -1, -1)
+    C2y = sp.diag(-1, 1, -1)
+    C3_111 = sp.Matrix([[0, 0, 1], [1, 0, 0], [0, 1, 0]])
+    gens = {"triclinic": [sp.eye(3)], "monoclinic": [C2y], "orthorhombic": [C2x, C2y], "tetragonal7": [rz(0, 1)],
+            "tetragonal6": [rz(0, 1), C2x], "trigonal7": [rz(-h, r3)], "trigonal6": [rz(-h, r3), C2x],
+            "hexagonal": [rz(h, r3), C2x], "cubic": [rz(0, 1), C3_111]}
+
+    def action(R):
+        M = sp.zeros(21, 21)
+        for n, (I, J) in enumerate(KEYS21):
+            (a, b), (c_, d) = PAIR_OF_VOIGT[I], PAIR_OF_VOIGT[J]
+            # C'_{ijkl} = R_ai R_bj R_ck R_dl C_abcd ; column n = image of basis tensor n (all its index permutations)
+            members = set()
+            for (p, q) in ((a, b), (b, a)):
+                for (r, t) in ((c_, d), (d, c_)):
+                    members.add((p, q, r, t))
+                    members.add((r, t, p, q))
+            for m, (I2, J2) in enumerate(KEYS21):
+                (i, j), (k, l) = PAIR_OF_VOIGT[I2], PAIR_OF_VOIGT[J2]
+                M[m, n] = sp.nsimplify(sum(R[p - 1, i - 1] * R[q - 1, j - 1] * R[r - 1, k - 1] * R[t - 1, l - 1] for (p, q, r, t) in members))
+        return M
+
+    for si, system in enumerate(SYSTEMS):
+        if si % ctx.nshards != ctx.shard:
+            continue
+        stack = sp.Matrix.vstack(*[action(R) - sp.eye(21) for R in gens[system]])
+        W = stack.nullspace()
+        from sympy.parsing.sympy_parser import parse_expr
+        syms = [sp.Symbol(n) for n in NAMES21]
+        rows = []
+        with open(os.path.join(REPO, "cij", "data", "constraints", system)) as fp:
+            for line in fp:
+                if not line.strip():
+                    continue
+                parts = [parse_expr(p) for p in line.split("=")]
+                for p in parts[1:]:
+                    e = sp.expand(parts[0] - p)
+                    rows.append([e.coeff(sy) for sy in syms])
+        R = sp.Matrix(rows) if rows else sp.zeros(0, 21)
+        sol_dim = 21 - (R.rank() if rows else 0)
+        case = {"system": system, "clause": "exact-subspace-equality"}
+        if len(W) != EXPECTED_DIM[system]:
+            raise AssertionError("exact invariant subspace of %s has dimension %d" % (system, len(W)))
+        if sol_dim != len(W):
+            raise PropertyViolation("C08/system=%s/relations-too-weak" % system, "exact: relations leave %d parameters, the Laue class has %d" % (
+                sol_dim, len(W)), case)
+        for wv in W:
+            if rows and any(sp.simplify(x) != 0 for x in (R * wv)):
+                raise PropertyViolation("C08/system=%s/relations-exclude-invariant" % system, "exact: an invariant tensor violates a packaged relation", case)
+        ctx.case(case, system != "triclinic", classes=["exact-sympy", system])
+
+
 def subchecks(ctx):
-    return [("subspaces", sub_subspaces), ("fill_sufficient", sub_fill), ("elast_data", sub_elast_data)]
+    return [("subspaces", sub_subspaces), ("fill_sufficient", sub_fill), ("elast_data", sub_elast_data), ("exact", sub_exact)]
 
 
 def replay(ctx, payload):
